@@ -310,6 +310,18 @@ def run(ctx):
     from contracts import c_bundleinst as cb
     ctx.verify(cb.copy_engine(), cb.VERIFY_COPY, min_obligations={"hdl21.bundle:BundleInstance.__copy__": 30})
     ctx.verify(cb.engine(), cb.VERIFY_FLIPPED, min_obligations={"hdl21.bundle:flipped": 3})
+    from contracts import c_bundleflat as cbf
+    key, obs, info = cbf.obligations()
+    for u in info.get("unsupported", []):
+        ctx.unsupported.append((key, u))
+    if len(obs) < 6 and not info.get("unsupported"):
+        ctx.checker_errors.append(f"only {len(obs)} direction-rule obligations")
+    ctx.discharge(obs, key + " [leaf direction block; sub-bundle loop body]", info)
+    ctx.verify(cbf.top_engine(), cbf.VERIFY_TOP)
+    ctx.assumptions.append("direction rule: one arbitrary leaf and one arbitrary sub-bundle per loop are proved; the "
+                           "induction over the bundle tree's depth (flip state at a leaf == parity of the flips on its "
+                           "path) is the standard argument over those two facts and flatten_bundle_inst's start state, "
+                           "not machine-checked; naming and widths are decided by the bounded family")
     b = z3.Bool("flag")
     ctx.lemma("two-flips-cancel (over the contract of flipped(): result.flipped == not arg.flipped)", [],
               z3.Not(z3.Not(b)) == b)
